@@ -109,9 +109,14 @@ def gen_case(g):
             perm = names[:]
             rng.shuffle(perm)
             bringups.append({"kind": "open", "perm": perm})
+    unreadable = None
+    if rng.random() < 0.2 and nfiles >= 3:
+        # one source file cannot be read at any time (same fault in every bring-up): the index of
+        # the *other* files must still not depend on where the bad file sits in the enumeration
+        unreadable = rng.choice([n for n in names if ws["files"][n.rsplit("/", 1)[-1]]["kind"] == "module"] or names)
     argv = ["--disable_autoupdate", "--incremental_sync"] + rng.choice(
         [[], [], ["--max_line_length", "100"], ["--sort_keywords"], ["--lowercase_intrinsics"]])
-    return {"files": files, "bringups": bringups, "argv": argv, "tiny": tiny}
+    return {"files": files, "bringups": bringups, "argv": argv, "tiny": tiny, "unreadable": unreadable}
 
 
 def schedule_for(case, b):
@@ -142,8 +147,12 @@ def schedule_for(case, b):
     ops.append({"k": "obs", "what": "saved"})
     ops.append({"k": "battery", "spec": BATTERY})
     ops += [gen.req(99990, "shutdown"), gen.note("exit")]
+    faults = []
+    if case.get("unreadable"):
+        faults.append({"seam": "open", "path": paths[case["unreadable"]], "kind": "eio", "op": None, "nth": None})
     return {"argv": argv, "tree": tree, "ops": ops, "pool": pool, "order": order, "sync_kind": 2,
-            "strict_edits": True, "want_transcript": True, "pipeline": False}
+            "strict_edits": False, "want_transcript": True, "pipeline": False, "faults": faults,
+            "skip_saved_for": [paths[case["unreadable"]]] if case.get("unreadable") else []}
 
 
 def entry_digests(t):
